@@ -131,7 +131,7 @@ func cmdCheck(args []string) int {
 	discharged, total := 0, 0
 	solverSecs := 0.0
 	backends := map[string]int{}
-	os.MkdirAll(filepath.Join(verifDir, "replays"), 0o755)
+	os.MkdirAll(filepath.Join(outDir(), "replays"), 0o755)
 	staleFn := map[string]bool{}
 	for _, r := range results {
 		if len(r.SpecErrors) > 0 {
@@ -429,9 +429,9 @@ func writeEvidence(id, tier string, ps *PropSpec, cs *ContractSet, results []*Fu
 			"contract_files":           cs.Files,
 		},
 	}
-	os.MkdirAll(filepath.Join(verifDir, "evidence"), 0o755)
+	os.MkdirAll(filepath.Join(outDir(), "evidence"), 0o755)
 	b, _ := json.MarshalIndent(ev, "", " ")
-	os.WriteFile(filepath.Join(verifDir, "evidence", id+".json"), b, 0o644)
+	os.WriteFile(filepath.Join(outDir(), "evidence", id+".json"), b, 0o644)
 }
 
 // runStructural / runLemmas are filled in by structural.go / lemma.go.
